@@ -194,6 +194,19 @@ def check_case(out: Outcome, case, tag):
                 out.fail('property', 'graph-edges', case, expected=sorted(want_edges), observed=sorted(edges))
             if g.number_of_nodes() != n:
                 out.fail('property', 'graph-nodes', case, expected=n, observed=g.number_of_nodes())
+            # energy limits (in eV, the unit of the edge attribute): the edge set is the sub-set within the limits
+            en = {e: float(d['e_act']) for e, d in g.edges.items()}
+            vals = sorted(set(en.values()))
+            if vals and all(np.isfinite(vals)):
+                thr = 0.5 * (vals[0] + vals[-1]) if len(vals) >= 2 and vals[0] != vals[-1] else vals[0] + 0.01
+                if thr != 0:
+                    lo = set(jumps.to_graph(min_e_act=thr).edges)
+                    hi = set(jumps.to_graph(max_e_act=thr).edges)
+                    want_lo = {e for e, v in en.items() if v >= thr}
+                    want_hi = {e for e, v in en.items() if v <= thr}
+                    if lo != want_lo or hi != want_hi:
+                        out.fail('property', 'graph-edges-within-energy-limits', case, expected=[sorted(want_lo), sorted(want_hi)],
+                                 observed=[sorted(lo), sorted(hi)], note=f'limit {thr} eV; edge energies {vals[:6]}')
         else:
             out.count('graph-skipped-no-frequency')
     except Exception as e:  # noqa: BLE001
